@@ -248,9 +248,11 @@ func runC12(c *Ctx) {
 			c.Violate("C12.4-index-undo", FuncName(kvSet)+"|undo closure", p.Pos(kvSet.Pos()), "no deferred closure restores the index (Diff.Set of prior + Diff.RemoveId of added)")
 		} else {
 			c.Fn(FuncName(undo))
-			loops := Loops(undo)
+			// the two loops may have been moved into a helper of their own
+			shape, _ := descendTo(undo, CalleeIs(mDiffSet))
+			loops := Loops(shape)
 			okRev := false
-			for _, cs := range CallSinks(undo, CalleeIs(mDiffSet), false) {
+			for _, cs := range CallSinks(shape, CalleeIs(mDiffSet), false) {
 				l := InnermostLoop(loops, cs)
 				if l == nil {
 					continue
@@ -265,7 +267,11 @@ func runC12(c *Ctx) {
 			}
 			c.Check(okRev, "C12.4-index-undo", FuncName(undo)+"|prior restored in reverse", p.Pos(undo.Pos()), "prior elements are re-set one by one from the last to the first, so a slot overwritten twice in one call ends at its genuine pre-call head")
 			okRem := false
-			for _, cs := range CallSinks(undo, CalleeIs(mDiffRem), false) {
+			shapeRem, _ := descendTo(undo, CalleeIs(mDiffRem))
+			if shapeRem != shape {
+				loops = Loops(shapeRem)
+			}
+			for _, cs := range CallSinks(shapeRem, CalleeIs(mDiffRem), false) {
 				if InnermostLoop(loops, cs) != nil {
 					okRem = true
 				}
